@@ -65,6 +65,10 @@ type GLower[k any, v any] interface {
 	Do(a k) v
 }
 
+// AliasInst is an alias of an instantiated generic interface: not generic itself, its methods mention the
+// type argument where the generic interface mentions its parameter.
+type AliasInst = GOne[dep.Key]
+
 // GClash names a type parameter like the type of its constraint: whatever is printed for the
 // parameter and whatever is printed for the constraint must not be confused with each other.
 type GClash[Stringer dep.Stringer, V any] interface {
